@@ -2,21 +2,43 @@
 
 case = {"kind": str, "attr_mode": "none" | "str" | "list", "invariant": bool,
         "items": [{"g": graph, "attr": None | str | [int, ...]}, ...],     # the pool; ops refer to pool indices
-        "ops": [op, ...]}
-op   = ["gc_iter", [idx...], labelled]   GraphCluster().iterative_cluster(graphs, attrs, nodeMatch, edgeMatch)
+        "ops": [op, ...],
+        # round 3 (all optional; absent = the round-1/2 behaviour: fresh clusterer objects and fresh entry dicts for every op)
+        "shared": bool,        ONE GraphCluster and ONE BatchCluster object per case, ONE entry dict per graph object (it keeps
+                               the "class" written by earlier calls), the same data list object for the same index list
+        "twin": n,             the pool has 2n items; item i+n is item i (same graph OBJECT, same entry dict) with the SECOND
+                               pre-grouping attribute: every entry carries both keys "att" and "att2"; an op whose indices
+                               are >= n is called with attribute_key="att2"
+        "obj": [group, ...],   pool items with the same group are VERSIONS of one nx.Graph object: using another version edits
+                               that object in place (same Python object, nodes / edges / attributes changed)
+        "cfg": {"names", "defaults", "edge"}   constructor options of both classes
+        "match": {...}         matchers built by the caller and passed explicitly to lib_check / iterative_cluster
+        "call": "short" | "pos" | "kw"   trailing defaults omitted | everything positional | everything by keyword
+        "rule_key": str, "strip": bool}
+op   = ["gc_iter", [idx...], labelled]   gc.iterative_cluster(graphs, attrs, nodeMatch, edgeMatch)
                                           (labelled=False: nodeMatch=edgeMatch=None, i.e. topology only)
-       ["gc_fit", [idx...]]               GraphCluster().fit(data, "g", attr_key)
-       ["templates", [[idx, class], ...]] start from the given class representatives
+       ["gc_fit", [idx...]]               gc.fit(data, rule_key, attr_key)
+       ["templates", [[idx, class], ...]] start from the given class representatives (a NEW list of NEW dicts)
        ["reset"]                          templates = None
-       ["lib_check", idx]                 BatchCluster().lib_check(entry, templates, "g", attr_key)
-       ["cluster", [idx...]]              BatchCluster().cluster(data, templates, "g", attr_key)
-       ["fit", [idx...], batch_size|None, picks]   BatchCluster().fit(data, templates, "g", attr_key, batch_size)
+       ["lib_check", idx]                 bc.lib_check(entry, templates, rule_key, attr_key[, nodeMatch, edgeMatch])
+       ["cluster", [idx...]]              bc.cluster(data, templates, rule_key, attr_key)
+       ["fit", [idx...], batch_size|None, picks]   bc.fit(data, templates, rule_key, attr_key, batch_size)
              picks = the choices of random.sample (seed 1) inside stratified_random_sample on the one-shot path,
              one position per class, pre-computed by the generator from a reference clustering (external randomness
              is an input of the model, DESIGN section 3); [] when the path is not taken.
+       ["meta", [action...], expected]    what the CALLER does to its own objects between two calls; the model is told the
+             resulting library (OTemplates expected).  Actions: ["key", side] same library, other attribute key;
+             ["edit", i, j] graph object edited in place; ["set_class" | "del_class", idx(, c)] a returned entry changed;
+             ["t_append", idx, c] / ["t_trunc", k] / ["t_class", pos, c] / ["t_perm", perm] / ["t_copy"] the returned template
+             list changed in place; ["clusters_clear"] the returned clusters / rule_to_cluster emptied.
+       ["iso", i, j, "nm" | "defaults" | "none"]   graph_isomorphism directly            (trailing ops only)
+       ["batch_dicts", [idx...], batch_size]       BatchCluster.batch_dicts              (trailing ops only)
+       ["ctor", "gc" | "bc", names, defaults, edge, backend], ["backends", "gc" | "bc"]    constructor contract (oracle only)
+       an op may end with a flags dict: {"nokey": 1} = call with attribute_key=None / attributes=None (only where every
+       item of that side carries the same attribute, so the model's answer is the same)
 The batch ops carry the growing template list from op to op (the property's state).
 Observable per op: classes written to the processed entries (+ clusters / rule_to_cluster for gc_iter) and the
-template list as [pool index, class] pairs in list order.
+template list as [pool index, class] pairs in list order (pool index = the version the template's graph OBJECT currently is).
 """
 import itertools
 import random as _random
@@ -31,16 +53,20 @@ SHARD = 40
 IMPL_TIMEOUT = 1500
 COQ_TIMEOUT = 1500
 
-RULE = ("histories of clustering calls (one-shot GraphCluster, incremental lib_check / cluster, batched fit with batch sizes 1..N, "
-        "explicit starting templates) over multisets of reaction centres from Data/Testcase/test.pkl.gz and graph.pkl.gz with duplicates, "
-        "relabelled copies and near-misses (one bond order / one charge changed) in random orders; non-trivial = the multiset has "
+RULE = ("histories of clustering calls (one-shot GraphCluster, incremental lib_check / cluster, batched fit with batch sizes 1..N and >= 10, "
+        "explicit starting templates) over multisets of reaction centres from Data/Testcase/test.pkl.gz and graph.pkl.gz, small synthetic "
+        "molecules and degenerate graphs (empty, single node, isolated nodes, charges < 0 and >= 10, bond order 0) with duplicates, "
+        "relabelled copies and near-misses (one bond order / one charge changed, a node or edge added) in random orders; two thirds of "
+        "the histories run on ONE GraphCluster and ONE BatchCluster object with reused entry dicts (libraries of equal size, the same "
+        "library with another attribute key, graphs edited in place, results mutated by the caller); non-trivial = the multiset has "
         ">= 2 isomorphism classes, at least one class with >= 2 members and at least one near-miss or relabelled copy; "
         "distinct = distinct (pool, ops)")
 EXHAUSTIVE = {"quick": False, "thorough": False}
 EXPLANATION = ("Theorems are for all lists and all equivalence relations; the correspondence samples multisets of corpus reaction centres "
-               "(ITS rc graphs with order pairs) and small synthetic molecule graphs (also with wildcard atoms and with default-valued "
-               "labels -- charge 0, order 1, element * -- absent on some copies), starting templates with gaps in the class numbers or an "
-               "empty template list, every list order being a seeded shuffle; "
+               "(ITS rc graphs with order pairs), small synthetic molecule graphs (also with wildcard atoms and with default-valued "
+               "labels -- charge 0, order 1, element * -- absent on some copies) and degenerate graphs, starting templates with gaps in the "
+               "class numbers or an empty template list, class numbers and batch sizes >= 10, non-default constructor options, explicit "
+               "matchers, positional and keyword calling conventions, every list order being a seeded shuffle; "
                "nothing is enumerated exhaustively except all 6 orders of 3-item multisets of the first 3 near-miss triples.")
 TRUSTED_BASE = [
     "Coq 8.16.1 kernel + vm_compute (no native_compute)",
@@ -56,7 +82,12 @@ TRUSTED_BASE = [
 ASSUMPTIONS = ["items are networkx Graphs (not GML rule strings: the 'mod' backend is not installed)",
                "the pre-grouping attribute is None (attribute_key=None), a str, or a list of ints (an int raises TypeError in GraphCluster)",
                "starting templates are consistent: isomorphic representatives carry the same class",
-               "non-empty data lists (iterative_cluster reads rules[0])"]
+               "non-empty data lists (iterative_cluster reads rules[0])",
+               "non-default constructor options / explicit matchers: the oracle judges with a reference isomorphism on the configured labels; "
+               "more than two node labels are outside the model (oracle only); BatchCluster.fit's one-shot path (default GraphCluster()) is "
+               "exercised with configurations equivalent to the default only",
+               "what the caller does to its own objects between two calls (in-place edits, mutated results) reaches the model as the resulting "
+               "template list (OTemplates); the model functions are pure, so every call equals its fresh evaluation by construction"]
 TESTED_NOT_PROVED = []
 LEVEL_TEXT = ("Machine-checked proof (Coq, 18 theorems in coq/props/C13.v, all closed under the global context). Generic part, for every list "
               "of items and every decidable test `iso` that is an equivalence, with an iso-invariant pre-grouping attribute as the code reads "
@@ -371,7 +402,8 @@ class _World:
                                                      [data, self.templates, rk, self.key(op), op[2]], {"batch_size": None})
                 except ValueError:
                     if op[2] is not None and op[2] < 1:
-                        return ["ValueError"], [], True
+                        # the contract: ValueError, nothing processed; with the flag "expect" the model is told "library unchanged"
+                        return ([[]] if "expect" in _flags(op) else ["ValueError"]), "ValueError", True
                     raise
             finally:
                 _random.setstate(st)
@@ -553,7 +585,7 @@ def _in_domain(case):
                 return False
             if k in ("gc_iter", "gc_fit", "cluster", "fit") and not op[1]:
                 return False
-            if k in ("fit", "batch_dicts") and op[2] is not None and op[2] < 1:
+            if k in ("fit", "batch_dicts") and op[2] is not None and op[2] < 1 and "expect" not in _flags(op):
                 return False
             ix = _op_idxs(op)
             if case.get("twin") and len({i >= n for i in ix}) > 1:
@@ -615,6 +647,8 @@ def _coq_op(op):
     if k == "cluster":
         return "OCluster %s" % ix(op[1])
     if k == "fit":
+        if op[2] is not None and op[2] < 1:
+            return "OTemplates %s" % clist([cpair(cnat(i), cZ(c)) for i, c in _flags(op)["expect"]])       # ValueError: nothing happens
         return "OFit %s %s %s" % (ix(op[1]), copt(None if op[2] is None else cnat(op[2])), ix(op[3]))
     raise AssertionError(k)
 
@@ -892,7 +926,7 @@ class _Sim:
             self.ensure_side(ix)
             picks = []
             if bs is not None and bs < 1:
-                pass
+                fl = dict(fl, expect=self.expected())
             else:
                 nb = 1 if bs is None else (len(idxs) + bs - 1) // bs
                 if nb == 1 and not self.T:
@@ -1028,7 +1062,7 @@ def oracle(case):
                 fails.append(dict(clause="constructor", detail="available_backends() = %r without the mod package" % (o,)))
             return
         if k == "fit" and op[2] is not None and op[2] < 1:
-            if o[0] != "ValueError":
+            if classes != "ValueError":
                 fails.append(dict(clause="batches", detail="fit with batch_size %r did not raise ValueError" % op[2]))
             return
         idxs = [op[1]] if k == "lib_check" else list(op[1])
@@ -1407,6 +1441,8 @@ def _history(rng, case, n, idx=None):
         elif r < 0.5:
             ops.append(["cluster", chunk])
         else:
+            if rng.random() < 0.04:
+                ops.append(["fit", chunk, rng.choice([0, 0, -1])])          # ValueError is the contract; nothing may be processed
             ops.append(["fit", chunk, rng.choice([None, 1, 2, 3, 5, len(chunk), len(chunk) + 1])])
         pos += take
     if rng.random() < 0.5:
@@ -1809,7 +1845,7 @@ def gen_cases(tier, rng):
                           ["cluster", [0, 1, 2]], ["reset"], ["fit", [0, 1, 2], None], ["lib_check", 2]], p_shared=0.5)
     N = (lambda q, t: q if quick else t)
     # ---- bulk histories (round 1/2 population, now 60 % of them on shared objects)
-    for t in range(N(450, 6000)):
+    for t in range(N(450, 4500)):
         z = rng.random()
         if z < 0.7:
             base = rng.sample(corpus, rng.randint(2, 4))
